@@ -122,7 +122,7 @@ func c07GetBases(t *testing.T) []*c07Base {
 
 func c07FreshState(now time.Time) *State {
 	pv, _ := vStaticKeys()
-	return &State{StaticPv: &pv, UsedRandom: map[[32]byte]int64{}, WorldState: common.WorldState{Rand: rand.Reader, Now: func() time.Time { return now }}}
+	return vState(&State{StaticPv: &pv, UsedRandom: map[[32]byte]int64{}, WorldState: common.WorldState{Rand: rand.Reader, Now: func() time.Time { return now }}})
 }
 
 // c07Judge presents a modified packet on a fresh replay cache.
